@@ -188,6 +188,11 @@ class SolveGroupSwizzlerPartsel(object):
                 d_width += 1
                 maxval >>= 1
     
+            if t_range[0] < 0:
+                # Negative values differ from non-negative ones in their 
+                # upper (sign) bits: the pattern must span the whole field
+                d_width = f.width
+    
             if self.debug > 0:
                 print("d_width: %d" % d_width)                
                 
